@@ -25,6 +25,17 @@ ENTRY = "initialize"
 OPAQUE = ("init_config", "init_logger", "init_exceptions", "init_mimetypes")
 CONFIG = "config"
 LOGGERS = ("logger.log", "GopherExceptions.log")
+SERVER_CLASSES = ("ForkingTCPServer", "ThreadingTCPServer")
+PURE_CALLS = ("int", "str", "len", "struct.pack", "float")
+_O = "(EOpq [])"
+# socketserver.TCPServer (CPython 3.12), with allow_reuse_address = True and allow_reuse_port = False
+STD_METHODS = {
+    "server_bind": ['(SExpr (ECall (lit "socket.setsockopt") [%s; %s; %s]))' % (_O, _O, _O),
+                    '(SExpr (ECall (lit "socket.bind") [%s]))' % _O,
+                    '(SAssign (lit "self.server_address") (ECall (lit "socket.getsockname") []))'],
+    "server_activate": ['(SExpr (ECall (lit "socket.listen") [%s]))' % _O],
+    "server_close": ['(SExpr (ECall (lit "socket.close") []))'],
+}
 RECORD_FIELDS = {"pw_name": 0, "pw_passwd": 1, "pw_uid": 2, "pw_gid": 3, "pw_gecos": 4, "pw_dir": 5, "pw_shell": 6,
                  "gr_name": 0, "gr_passwd": 1, "gr_gid": 2, "gr_mem": 3}
 KNOWN_EXC = ("BaseException", "Exception", "OSError", "IOError", "EnvironmentError", "KeyError", "LookupError",
@@ -56,11 +67,17 @@ def register_units(UNITS, gen):
         raise U(what + " is not a string constant")
 
     class Fn:
-        def __init__(self, node, funcs):
+        method = False          # True: a method of the server class, inlined into the constructor
+        self_attrs = ()         # attributes of self that some translated method assigns
+        class_vars = ()         # locals of this function that hold a server class
+
+        def __init__(self, node, funcs, method=False, self_attrs=()):
             self.node = node
             self.funcs = funcs
+            self.method = method
+            self.self_attrs = set(self_attrs)
             a = node.args
-            if a.vararg or a.kwarg or a.kwonlyargs or a.posonlyargs:
+            if not method and (a.vararg or a.kwarg or a.kwonlyargs or a.posonlyargs):
                 raise U(node.name + ": unusual parameter list")
             self.params = [x.arg for x in a.args]
             self.defaults = [None] * (len(a.args) - len(a.defaults)) + list(a.defaults)
@@ -80,6 +97,14 @@ def register_units(UNITS, gen):
                     for al in n.names:
                         if al.asname:
                             raise U("import ... as ...")
+            # locals that only ever hold one of pygopherd.server's classes: calling one constructs the server
+            cv = {}
+            for n in ast.walk(node):
+                if isinstance(n, ast.Assign) and len(n.targets) == 1 and isinstance(n.targets[0], ast.Name):
+                    ok = isinstance(n.value, ast.Attribute) and dotted(n.value).startswith("pygopherd.server.") \
+                        and dotted(n.value).split(".")[-1] in SERVER_CLASSES
+                    cv[n.targets[0].id] = cv.get(n.targets[0].id, True) and ok
+            self.class_vars = {k for k, v in cv.items() if v}
 
         # ---- expressions ----
         def call(self, e):
@@ -87,6 +112,22 @@ def register_units(UNITS, gen):
                 raise U("**kwargs in a call")
             f = e.func
             name = dotted(f)
+            if self.method:
+                if name.startswith("self.config."):
+                    name = CONFIG + name[len("self.config"):]
+                    self.locals.add(CONFIG)
+                elif name.startswith("self.socket.") and name.count(".") == 2:
+                    args = [self.expr(a) for a in e.args] + [self.expr(k.value) for k in e.keywords]
+                    return "(ECall %s %s)" % (q("socket." + name.split(".")[2]), lst(args))
+                elif name in PURE_CALLS:
+                    return "(EOpq %s)" % lst([self.expr(a) for a in e.args] + [self.expr(k.value) for k in e.keywords])
+                elif name.split(".")[0] == "self":
+                    raise U("call of another method of the server object: " + name)
+            if isinstance(f, ast.Name) and f.id in self.class_vars:
+                # server_class(config, address, handler, context=context)
+                if len(e.args) != 3 or [k.arg for k in e.keywords] != ["context"]:
+                    raise U("server class constructed with unexpected arguments")
+                return "(ELocal %s %s)" % (q("server_class"), lst([self.expr(a) for a in e.args] + [self.expr(e.keywords[0].value)]))
             if name.split(".")[0] == CONFIG:
                 if CONFIG not in self.locals:
                     raise U("config is not a parameter/local here")
@@ -130,7 +171,11 @@ def register_units(UNITS, gen):
             if isinstance(e, ast.Constant):
                 if e.value is None:
                     return "ENone"
-                if isinstance(e.value, bool) or isinstance(e.value, (int, float)):
+                if e.value is True:
+                    return "(ENot ENone)"
+                if e.value is False:
+                    return "(ENot (ENot ENone))"
+                if isinstance(e.value, (int, float)):
                     return "(EStr %s)" % q(repr(e.value))
                 if isinstance(e.value, str):
                     return "(EStr %s)" % q(e.value.replace("\n", "\\n"))
@@ -139,6 +184,10 @@ def register_units(UNITS, gen):
                 if e.id in self.locals:
                     return "(EVar %s)" % q(e.id)
                 return "(ESym %s)" % q(e.id)
+            if isinstance(e, ast.Attribute) and self.method and isinstance(e.value, ast.Name) and e.value.id == "self":
+                if e.attr in ("config", "socket"):
+                    raise U("self.%s used as a value" % e.attr)
+                return ("(EVar %s)" if e.attr in self.self_attrs else "(ESym %s)") % q("self." + e.attr)
             if isinstance(e, ast.Attribute):
                 base = e
                 while isinstance(base, ast.Attribute):
@@ -201,7 +250,8 @@ def register_units(UNITS, gen):
             for i, s in enumerate(body):
                 if i == 0 and isinstance(s, ast.Expr) and isinstance(s.value, ast.Constant) and isinstance(s.value.value, str):
                     continue  # docstring
-                out.append(self.stmt(s))
+                r = self.stmt(s)
+                out.extend(r if isinstance(r, list) else [r])
             return lst(out)
 
         def stmt(self, s):
@@ -214,9 +264,32 @@ def register_units(UNITS, gen):
                     raise U("annotated assignment to a non-name")
                 return self.assign(s.target, s.value)
             if isinstance(s, ast.Assign):
+                if len(s.targets) == 1 and self.method and isinstance(s.targets[0], ast.Attribute) \
+                        and isinstance(s.targets[0].value, ast.Name) and s.targets[0].value.id == "self":
+                    if s.targets[0].attr in ("config", "socket") and not self.init_mode:
+                        raise U("self.%s rebound" % s.targets[0].attr)
+                    return "(SAssign %s %s)" % (q("self." + s.targets[0].attr), self.expr(s.value))
+                if len(s.targets) == 1 and isinstance(s.targets[0], ast.Tuple) \
+                        and all(isinstance(x, ast.Name) for x in s.targets[0].elts):
+                    self.ntmp = getattr(self, "ntmp", 0) + 1
+                    tmp = "_t%d" % self.ntmp
+                    self.locals.add(tmp)
+                    out = ["(SAssign %s %s)" % (q(tmp), self.expr(s.value))]
+                    for i, x in enumerate(s.targets[0].elts):
+                        out.append("(SAssign %s (EIndex (EVar %s) %d))" % (q(x.id), q(tmp), i))
+                    return out
                 if len(s.targets) != 1 or not isinstance(s.targets[0], ast.Name):
                     raise U("assignment target is not a single name")
                 return self.assign(s.targets[0], s.value)
+            if isinstance(s, ast.Expr) and self.method and isinstance(s.value, ast.Call) \
+                    and isinstance(s.value.func, ast.Attribute) and isinstance(s.value.func.value, ast.Call) \
+                    and isinstance(s.value.func.value.func, ast.Name) and s.value.func.value.func.id == "super" \
+                    and not s.value.func.value.args:
+                # super().<method>(): the socketserver.TCPServer method, inlined
+                m = s.value.func.attr
+                if m in STD_METHODS and not s.value.args and not s.value.keywords:
+                    return list(STD_METHODS[m])
+                raise U("super().%s(...)" % m)
             if isinstance(s, ast.Expr):
                 e = s.value
                 if isinstance(e, ast.Call):
@@ -284,9 +357,13 @@ def register_units(UNITS, gen):
                 if isinstance(s.exc, ast.Name) and s.exc.id not in self.locals:
                     return "(SRaise %s [])" % q(s.exc.id)
                 raise U("raise of a computed object")
+            if isinstance(s, ast.Return) and self.method:
+                raise U("return inside a method that is inlined into the constructor")
             if isinstance(s, ast.Return):
                 return "(SReturn %s)" % (self.expr(s.value) if s.value is not None else "ENone")
             raise U("statement " + type(s).__name__)
+
+        init_mode = False
 
         def assign(self, target, value):
             if target.id == CONFIG:
@@ -297,6 +374,92 @@ def register_units(UNITS, gen):
 
         def emit(self):
             return "FunDef %s %s\n    %s" % (q(self.node.name), lst(q(p) for p in self.params), self.block(self.node.body))
+
+    def server_ctor(repo):
+        """FunDef "server_class": what constructing pygopherd.server.<Forking|Threading>TCPServer does to
+        the socket — BaseServer.__init__, then socketserver.TCPServer.__init__ with BaseServer's
+        server_bind / server_activate / server_close where it overrides them."""
+        tree = gen.parse(repo, "pygopherd/server.py")
+        base = gen.find_class(tree, "BaseServer")
+        if [dotted(b) for b in base.bases] != ["socketserver.BaseServer"]:
+            raise U("BaseServer: unexpected base classes")
+        for cname in SERVER_CLASSES:
+            c = gen.find_class(tree, cname)
+            if [dotted(b) for b in c.bases] != ["BaseServer", "socketserver." + cname]:
+                raise U(cname + ": unexpected base classes")
+            for n in c.body:
+                if isinstance(n, ast.FunctionDef) and n.name in ("__init__", "server_bind", "server_activate",
+                                                                 "server_close", "__new__"):
+                    raise U(cname + " overrides " + n.name)
+                if isinstance(n, (ast.Assign, ast.AnnAssign)):
+                    raise U(cname + ": class attribute")
+        reuse = None
+        methods = {}
+        for n in base.body:
+            if isinstance(n, ast.FunctionDef):
+                methods[n.name] = n
+                if n.decorator_list:
+                    raise U("decorated method in BaseServer")
+            elif isinstance(n, ast.AnnAssign) and isinstance(n.target, ast.Name):
+                if n.target.id == "allow_reuse_address" and n.value is not None:
+                    if not (isinstance(n.value, ast.Constant) and n.value.value is True):
+                        raise U("allow_reuse_address is not True")
+                    reuse = True
+                elif n.value is not None:
+                    raise U("BaseServer: class attribute " + n.target.id)
+            elif isinstance(n, ast.Assign):
+                raise U("BaseServer: class attribute assignment")
+            elif not (isinstance(n, ast.Expr) and isinstance(n.value, ast.Constant)):
+                raise U("BaseServer: unexpected class body statement")
+        if reuse is not True:
+            raise U("BaseServer.allow_reuse_address not set to True")
+        for m in methods:
+            if m not in ("__init__", "server_bind", "server_activate", "server_close", "wrap_socket"):
+                raise U("BaseServer defines " + m)
+        if "__init__" not in methods:
+            raise U("BaseServer.__init__ missing")
+        attrs = set()
+        for m in methods.values():
+            for x in ast.walk(m):
+                if isinstance(x, ast.Attribute) and isinstance(x.ctx, ast.Store) and isinstance(x.value, ast.Name) \
+                        and x.value.id == "self":
+                    attrs.add(x.attr)
+        attrs.add("server_address")
+        # __init__(self, config, *args, context=None, **kwargs): self.<a> = ...; super().__init__(*args, **kwargs)
+        ini = methods["__init__"]
+        a = ini.args
+        if [x.arg for x in a.args] != ["self", "config"] or a.vararg is None or a.kwarg is None \
+                or [x.arg for x in a.kwonlyargs] != ["context"]:
+            raise U("BaseServer.__init__: unexpected signature")
+        body = gen.body_without_doc(ini)
+        last = body[-1] if body else None
+        if not (isinstance(last, ast.Expr) and isinstance(last.value, ast.Call)
+                and isinstance(last.value.func, ast.Attribute) and last.value.func.attr == "__init__"
+                and isinstance(last.value.func.value, ast.Call) and dotted(last.value.func.value.func) == "super"
+                and len(last.value.args) == 1 and isinstance(last.value.args[0], ast.Starred)
+                and len(last.value.keywords) == 1 and last.value.keywords[0].arg is None):
+            raise U("BaseServer.__init__ does not end with super().__init__(*args, **kwargs)")
+        import copy
+        ini2 = copy.copy(ini)
+        ini2.body = body[:-1]
+        ini2.args = ast.arguments(posonlyargs=[], args=a.args + [ast.arg(arg="context")], vararg=None, kwonlyargs=[],
+                                  kw_defaults=[], kwarg=None, defaults=[])
+        f = Fn(ini2, {}, method=True, self_attrs=attrs)
+        f.init_mode = True
+        stmts = f.block(ini2.body)
+
+        def inlined(name):
+            if name not in methods:
+                return lst(STD_METHODS[name])
+            m = methods[name]
+            if [x.arg for x in m.args.args] != ["self"] or m.args.vararg or m.args.kwarg or m.args.kwonlyargs:
+                raise U("BaseServer.%s: unexpected signature" % name)
+            return Fn(m, {}, method=True, self_attrs=attrs).block(m.body)
+        socket_new = '(SAssign (lit "self.socket") (ECall (lit "socket.socket") [%s; %s]))' % (_O, _O)
+        tryst = "(STry (%s ++ %s) [Handler [(lit \"BaseException\")] [] (%s ++ [SReraise])] [])" % (
+            inlined("server_bind"), inlined("server_activate"), inlined("server_close"))
+        return ("FunDef %s %s\n    (%s ++ [%s; %s; (SReturn (ESym (lit \"server\")))])"
+                % (q("server_class"), lst(q(x) for x in ["config", "address", "handler", "context"]), stmts, socket_new, tryst))
 
     def unit_init(repo):
         tree = gen.parse(repo, "pygopherd/initialization.py")
@@ -324,7 +487,7 @@ def register_units(UNITS, gen):
             for n in ast.walk(funcs[f]):
                 if isinstance(n, ast.Call) and isinstance(n.func, ast.Name) and n.func.id in funcs:
                     todo.append(n.func.id)
-        defs = [Fn(funcs[f], funcs).emit() for f in order]
+        defs = [Fn(funcs[f], funcs).emit() for f in order] + [server_ctor(repo)]
         out = ["(* GENERATED by translate/gen_init.py from pygopherd/initialization.py — do not edit *)",
                "From Coq Require Import String.",
                "From PG Require Import Lib.Str Model.Init.",
